@@ -237,20 +237,20 @@ func (s *Session) handleDATA() error {
 	data, err := parser.ReadDataCommand(s.reader, s.config.LMTP.MaxSize)
 	if err != nil {
 		log.Printf("Error reading message data: %v", err)
-		return s.sendResponse(554, "Error reading message: %v", err)
+		return s.rejectTransaction(554, "Error reading message: %v", err)
 	}
 
 	// Parse message
 	msg, err := parser.ParseMessage(bytes.NewReader(data))
 	if err != nil {
 		log.Printf("Error parsing message: %v", err)
-		return s.sendResponse(554, "Error parsing message: %v", err)
+		return s.rejectTransaction(554, "Error parsing message: %v", err)
 	}
 
 	// Validate message
 	if err := parser.ValidateMessage(msg, s.config.LMTP.MaxSize); err != nil {
 		log.Printf("Message validation failed: %v", err)
-		return s.sendResponse(554, "Message validation failed: %v", err)
+		return s.rejectTransaction(554, "Message validation failed: %v", err)
 	}
 
 	// Check quota for each recipient (if enabled)
@@ -288,6 +288,20 @@ func (s *Session) handleDATA() error {
 	s.recipients = make([]string, 0)
 
 	return nil
+}
+
+// rejectTransaction answers a failed DATA phase: LMTP (RFC 2033 4.2) requires one reply per accepted
+// recipient after the end of data, and the transaction is over whatever its outcome
+func (s *Session) rejectTransaction(code int, format string, args ...interface{}) error {
+	var err error
+	for range s.recipients {
+		if sendErr := s.sendResponse(code, format, args...); sendErr != nil {
+			err = sendErr
+		}
+	}
+	s.mailFrom = ""
+	s.recipients = make([]string, 0)
+	return err
 }
 
 // handleRSET handles the RSET command
